@@ -123,6 +123,9 @@ type MintBook struct {
 	LQOrder  []string
 	Keysets  map[string]*KeysetInfo
 	MQByHash map[string]string
+	// EffMelted: secrets of melt requests that were answered with an error but had settled a mint quote
+	// internally and kept their inputs locked: the melt took effect, the inputs are gone for good
+	EffMelted map[string]string
 	OutQuote map[string]string // B_ -> mint quote it was submitted for in a refused mint request
 }
 
@@ -428,6 +431,9 @@ func (b *Book) consume(m *MintBook, secret string, inputs []JProof, c ConsRec) {
 			}
 		}
 	}
+	if key, ok := m.EffMelted[secret]; ok && key != c.Key {
+		b.Violate("C01.double_spend", "melt(internal, error answer)+"+c.Kind, "secret %s paid for an internal settlement (%s: the mint quote was marked PAID, the request was then answered with an error and kept its inputs locked) and was later accepted again by %s %s", short(hY(secret)), key, c.Kind, c.Key)
+	}
 	r.Cons = append(r.Cons, c)
 	if len(r.Cons) > 1 {
 		kinds := []string{}
@@ -717,6 +723,17 @@ func (b *Book) ingestMelt(o *HTTPObs, resp map[string]any) {
 			}
 		}
 	}
+	if !paidLN && !internal && at.State != "PAID" {
+		if mq := m.MQByHash[q.Hash]; mq != "" && b.handlerSettledInternally(o, m.Name, mq) {
+			if m.EffMelted == nil {
+				m.EffMelted = map[string]string{}
+			}
+			for _, pr := range req.Inputs {
+				m.EffMelted[pr.Secret] = "melt:" + short(q.ID) + fmt.Sprint(o.Seq)
+			}
+			b.w.S.Stats["book_internal_effective_despite_error"]++
+		}
+	}
 	if paidLN || internal {
 		at.Paid = true
 		in, ok := sumProofs(req.Inputs)
@@ -745,6 +762,24 @@ func (b *Book) ingestMelt(o *HTTPObs, resp map[string]any) {
 			seen[p.Secret] = true
 		}
 	}
+}
+
+// handlerSettledInternally: the handler of this melt request wrote the mint quote PAID and did not
+// afterwards release its inputs (seam log of that very task).
+func (b *Book) handlerSettledInternally(o *HTTPObs, mint, mq string) bool {
+	want := "db.UpdateMintQuoteState " + short(mq) + " PAID"
+	settled := false
+	for _, c := range b.w.SeamLog {
+		if c.Seq < o.Seq || c.Node != mint || c.Task != o.Handler || c.Err {
+			continue
+		}
+		if c.Label == want {
+			settled = true
+		} else if settled && strings.HasPrefix(c.Label, "db.RemovePendingProofs") {
+			return false
+		}
+	}
+	return settled
 }
 
 // FinalizeMelts is run at quiescent points once every in-flight payment reached its
